@@ -167,10 +167,37 @@ pub fn extract_parametrize_indirect_fixtures(
     match indirect {
         Expr::Constant(c) => {
             if matches!(c.value, rustpython_parser::ast::Constant::Bool(true)) {
-                return param_names
-                    .into_iter()
-                    .map(|name| (name.to_string(), param_const.range))
-                    .collect();
+                // Each name gets its own span inside the argnames string (callers strip one
+                // quote character from either end of a range). That is only possible for a
+                // plain one-quote literal without escapes; otherwise fall back to the
+                // range of the whole string.
+                let literal_len = param_const.range.end().to_usize()
+                    - param_const.range.start().to_usize();
+                if literal_len != param_str.len() + 2 {
+                    return param_names
+                        .into_iter()
+                        .map(|name| (name.to_string(), param_const.range))
+                        .collect();
+                }
+                let content_start = param_const.range.start().to_u32() + 1;
+                let mut offset = 0usize;
+                let mut result = Vec::new();
+                for part in param_str.split(',') {
+                    let name = part.trim();
+                    let name_offset = offset + (part.len() - part.trim_start().len());
+                    if !name.is_empty() {
+                        let start = content_start + name_offset as u32;
+                        result.push((
+                            name.to_string(),
+                            rustpython_parser::text_size::TextRange::new(
+                                (start - 1).into(),
+                                (start + name.len() as u32 + 1).into(),
+                            ),
+                        ));
+                    }
+                    offset += part.len() + 1;
+                }
+                return result;
             }
         }
         Expr::List(list) => {
